@@ -740,7 +740,7 @@ pub fn c13_judge(src: &str) -> Result<Option<(usize, usize, usize)>, Failure> {
     }
     for (t, (vn, fs)) in te.variants.iter().enumerate() {
         match fs {
-            EFs::Tuple(v) if v.len() == 1 && *vn == nm.terms[t] => same("terminal enum", vn, &v[0], t)?,
+            EFs::Tuple(v) if v.len() == 1 && *vn == nm.terms[t] => same("terminal enum", vn, &v[0].1, t)?,
             _ => return fail("terminal-enum-variants", format!("terminal enum variant #{t} is {vn} {fs:?}; expected {}(<type>)", nm.terms[t])),
         }
     }
@@ -759,7 +759,7 @@ pub fn c13_judge(src: &str) -> Result<Option<(usize, usize, usize)>, Failure> {
             let got: Vec<&String> = match &et.variants[j].1 {
                 EFs::Unit => vec![],
                 EFs::Named(f) => f.iter().map(|(_, _, t)| t).collect(),
-                EFs::Tuple(f) => f.iter().collect(),
+                EFs::Tuple(f) => f.iter().map(|(_, t)| t).collect(),
             };
             if got.len() != used.len() {
                 continue;
